@@ -12,46 +12,12 @@ def Res.ok (r : Res) (size : Nat) : Prop := r.inBounds size = true ∧ r.retDefi
 theorem crlfEnd_ge (m : Nat → Nat) (n i room : Nat) : i ≤ crlfEnd m n i room := by
   fun_induction crlfEnd m n i room <;> omega
 
-theorem crlfEnd_le (m : Nat → Nat) (n i room : Nat)
-    (hlast : n = 0 ∨ ¬ (m (i + n - 1) = 13 ∨ m (i + n - 1) = 10)) : crlfEnd m n i room ≤ i + n := by
-  fun_induction crlfEnd m n i room with
-  | case1 => omega
-  | case2 => omega
-  | case3 i room hr hc =>
-    rcases hlast with h | h
-    · omega
-    · exact absurd hc (by simpa using h)
-  | case4 => omega
-  | case5 => omega
-  | case6 n i room hr hc hp ih =>
-    have : crlfEnd m n (i + 2) (room - 2) ≤ i + 2 + n := by
-      apply ih
-      rcases hlast with h | h
-      · omega
-      · by_cases hn : n = 0
-        · exact Or.inl hn
-        · right
-          have e : i + 2 + n - 1 = i + (n + 2) - 1 := by omega
-          rw [e]; exact h
-    omega
-  | case7 n i room hr hc hp ih =>
-    have : crlfEnd m (n + 1) (i + 1) (room - 2) ≤ i + 1 + (n + 1) := by
-      apply ih
-      rcases hlast with h | h
-      · omega
-      · right
-        have e : i + 1 + (n + 1) - 1 = i + (n + 2) - 1 := by omega
-        rw [e]; exact h
-    omega
-  | case8 n i room hr hc ih =>
-    have : crlfEnd m (n + 1) (i + 1) (room - 1) ≤ i + 1 + (n + 1) := by
-      apply ih
-      rcases hlast with h | h
-      · omega
-      · right
-        have e : i + 1 + (n + 1) - 1 = i + (n + 2) - 1 := by omega
-        rw [e]; exact h
-    omega
+theorem crlfEnd_le (m : Nat → Nat) (n i room : Nat) : crlfEnd m n i room ≤ i + n := by
+  fun_induction crlfEnd m n i room <;> omega
+
+/-- the rule before 8501a42 could look one byte further -/
+theorem oldCrlfEnd_le (m : Nat → Nat) (n i room : Nat) : oldCrlfEnd m n i room ≤ i + n + 1 := by
+  fun_induction oldCrlfEnd m n i room <;> omega
 
 theorem chanExamined_le (m : Nat → Nat) (n k : Nat) : chanExamined m n k ≤ n := by
   induction n generalizing k with
@@ -62,15 +28,16 @@ theorem chanExamined_le (m : Nat → Nat) (n k : Nat) : chanExamined m n k ≤ n
     · omega
     · have := ih (k + 1); omega
 
-theorem stringOut_ok (l size : Nat) (data : Option Mem) (h : Option H) (e : Option Nat) (r : Int)
-    (hs : data = none ∨ size ≠ 0) : (stringOut l size data h e r).ok size := by
+theorem stringOut_ok (l size : Nat) (data : Option Mem) (h : Option H) (e : Option Nat) (r : Int) :
+    (stringOut l size data h e r).ok size := by
   unfold stringOut Res.ok Res.inBounds Res.retDefined
   cases data with
   | none => simp
   | some m =>
-    have : size ≠ 0 := by simpa using hs
-    simp [this, rangeIn]
-    omega
+    by_cases hs : size = 0
+    · simp [hs]
+    · simp [hs, rangeIn]
+      omega
 
 theorem guardEq_ok (want size : Nat) (data : Option Mem) (h : Option H) (fr : Int) (fe : Option Nat) (k : Mem → Res)
     (hk : ∀ m, data = some m → size = want → (k m).ok size) : (guardEq want size data h fr fe k).ok size := by
@@ -88,28 +55,22 @@ theorem varGet_ok (s : Option Nat) (h : H) (size : Nat) (data : Option Mem) : (v
   omega
 
 theorem varSet_ok (sizeOff fixed cap eS eB : Nat) (h h2 : H) (size : Nat) (data : Option Mem)
-    (hoff : sizeOff + 4 ≤ fixed)
-    (hd : ∀ m, data = some m → fixed ≤ size ∧ (fixed < size → ¬ (m.byte (size - 1) = 13 ∨ m.byte (size - 1) = 10))) :
-    (varSet sizeOff fixed cap eS eB h size data h2).ok size := by
+    (hoff : sizeOff + 4 ≤ fixed) : (varSet sizeOff fixed cap eS eB h size data h2).ok size := by
   unfold varSet
   cases data with
   | none => simp [Res.ok, Res.inBounds, Res.retDefined]
   | some m =>
-    obtain ⟨h1, h2'⟩ := hd m rfl
     simp only
     split
-    · simp [Res.ok, Res.inBounds, Res.retDefined, rangeIn]; omega
+    · simp [Res.ok, Res.inBounds, Res.retDefined]
     · split
       · simp [Res.ok, Res.inBounds, Res.retDefined, rangeIn]; omega
-      · have hge := crlfEnd_ge m.byte (size - fixed) fixed (cap - fixed - 2)
-        have hle := crlfEnd_le m.byte (size - fixed) fixed (cap - fixed - 2) (by
-          by_cases hlt : fixed < size
-          · right
-            have e : fixed + (size - fixed) - 1 = size - 1 := by omega
-            rw [e]; exact h2' hlt
-          · left; omega)
-        simp [Res.ok, Res.inBounds, Res.retDefined, rangeIn]
-        omega
+      · split
+        · simp [Res.ok, Res.inBounds, Res.retDefined, rangeIn]; omega
+        · have hge := crlfEnd_ge m.byte (size - fixed) fixed (cap - fixed - 2)
+          have hle := crlfEnd_le m.byte (size - fixed) fixed (cap - fixed - 2)
+          simp [Res.ok, Res.inBounds, Res.retDefined, rangeIn]
+          omega
 
 theorem containerCommand_ok (h : H) (cmd : Int) (size n : Nat) : (containerCommand h cmd size).ok n := by
   unfold containerCommand Res.ok Res.inBounds Res.retDefined
@@ -125,20 +86,12 @@ theorem formatIndexed_ok (count : Nat) (c : Bool) (size : Nat) (data : Option Me
   split <;> cases c <;> simp [Res.ok, Res.inBounds, Res.retDefined, rangeIn, szFormatInfo] at * <;> omega
 
 
-/-- the three known-finding classes of the bounds part -/
-def kfBounds (h : Option H) (cmd : Int) (size : Nat) (data : Option Mem) : Bool :=
-  kfStrlen0 cmd size data || kfLenBeforeCheck h cmd size data || kfCrlfLast h cmd size data
-
-
 theorem preHandle_ok (g : G) (h : Option H) (cmd : Int) (size : Nat) (data : Option Mem) (r : Res)
-    (hk : kfStrlen0 cmd size data = false) (hr : preHandle g h cmd size data = some r) : r.ok size := by
+    (hr : preHandle g h cmd size data = some r) : r.ok size := by
   unfold preHandle at hr
   split at hr
   · cases hr
     apply stringOut_ok
-    rename_i hc
-    simp [kfStrlen0, isStringCmd, hc] at hk
-    cases data <;> simp_all
   · split at hr
     · cases hr
       apply guardEq_ok; intro m _ hs
@@ -280,63 +233,24 @@ macro "c17_leaf" : tactic =>
 macro "c17_auto" : tactic =>
   `(tactic| ((repeat' (first | split | (apply guardEq_ok; intro _ _ _))) <;> c17_leaf))
 
-theorem withHandle_ok (h : H) (cmd : Int) (size : Nat) (data : Option Mem)
-    (hk : kfBounds (some h) cmd size data = false) : (withHandle h cmd size data).ok size := by
+theorem withHandle_ok (h : H) (cmd : Int) (size : Nat) (data : Option Mem) : (withHandle h cmd size data).ok size := by
   have hs := classify_sound cmd
   unfold withHandle
   cases hcl : classify cmd <;> rw [hcl] at hs <;> simp only [Cls.cond] at hs <;> simp only []
   all_goals first
     | apply varGet_ok
     | apply containerCommand_ok
-    | (apply stringOut_ok; simp_all [kfBounds, kfStrlen0, isStringCmd]; done)
+    | apply stringOut_ok
     | (apply guardEq_ok; intro m hm hs; first | apply containerCommand_ok | (split_ifs <;> c17_leaf) | c17_leaf)
     | (split_ifs <;> c17_leaf)
     | c17_leaf
     | skip
-  case k1001 =>
-    apply stringOut_ok
-    subst hs
-    cases data <;> simp_all [kfBounds, kfStrlen0, isStringCmd]
   case k1080 =>
     split_ifs <;> first | c17_leaf | (cases data <;> c17_leaf)
   case k10F1 =>
-    subst hs
-    split_ifs <;> first
-      | c17_leaf
-      | (apply varSet_ok
-         · decide
-         · intro m hm
-           subst hm
-           simp [kfBounds, kfLenBeforeCheck, kfCrlfLast, reachesBextSet, isCrLf, bextFixed] at hk
-           simp_all [bextFixed]
-           rename_i c1 c2 c3
-           have hx : ¬h.bext = none ∨ h.haveWritten = false := by
-             by_cases hb : h.bext = none
-             · exact Or.inr (c3 hb)
-             · exact Or.inl hb
-           obtain ⟨⟨_, k1⟩, k2⟩ := hk
-           have k1' := k1 hx
-           have k2' := k2 hx
-           exact ⟨by have := of_decide_eq_false k1'; omega, fun hlt => k2' (decide_eq_true hlt)⟩)
+    split_ifs <;> first | c17_leaf | (apply varSet_ok; decide)
   case k1400 =>
-    subst hs
-    split_ifs <;> first
-      | c17_leaf
-      | (apply varSet_ok
-         · decide
-         · intro m hm
-           subst hm
-           simp [kfBounds, kfLenBeforeCheck, kfCrlfLast, reachesCartSet, isCrLf, cartFixed] at hk
-           simp_all [cartFixed]
-           rename_i c1 c2 c3
-           have hx : ¬h.cart = none ∨ h.haveWritten = false := by
-             by_cases hb : h.cart = none
-             · exact Or.inr (c3 hb)
-             · exact Or.inl hb
-           obtain ⟨⟨_, k1⟩, k2⟩ := hk
-           have k1' := k1 hx
-           have k2' := k2 hx
-           exact ⟨by have := of_decide_eq_false k1'; omega, fun hlt => k2' (decide_eq_true hlt)⟩)
+    split_ifs <;> first | c17_leaf | (apply varSet_ok; decide)
   case k10CD =>
     apply guardEq_ok; intro m hm hs'
     split <;> c17_leaf
@@ -373,18 +287,11 @@ theorem preHandle_pure (g : G) (h : Option H) (cmd : Int) (size : Nat) (data : O
   unfold preHandle at hr
   split_ifs at hr <;> cases hr <;> simp only [stringOut, guardEq, formatIndexed] <;> (repeat' split) <;> rfl
 
-theorem afterCalc_same (h : H) (hne : ¬ (h.mode = .rw ∧ h.readCur ≠ h.writeCur)) : afterCalc h = h := by
-  unfold afterCalc
-  cases h with
-  | mk mode =>
-    cases mode <;> simp_all
-
 macro "c17_pure" : tactic =>
   `(tactic| (((try simp only [guardEq, stringOut, varGet]); repeat' split) <;> (simp [sameState]; done)))
 
 theorem withHandle_pure (h : H) (cmd : Int) (size : Nat) (data : Option Mem)
-    (hq : isQuery cmd = true) (hk : kfCalcRdwr (some h) cmd size data = false) :
-    sameState (withHandle h cmd size data).h' (some h) = true := by
+    (hq : isQuery cmd = true) : sameState (withHandle h cmd size data).h' (some h) = true := by
   have hs := classify_sound cmd
   unfold withHandle
   cases hcl : classify cmd <;> rw [hcl] at hs <;> simp only [Cls.cond] at hs <;> simp only []
@@ -394,41 +301,5 @@ theorem withHandle_pure (h : H) (cmd : Int) (size : Nat) (data : Option Mem)
     | (apply containerCommand_pure <;> (intro hc; subst hc; revert hq; decide))
     | c17_pure
     | skip
-  case k1040 =>
-    cases data with
-    | none => simp [guardEq, sameState]
-    | some m =>
-      simp only [guardEq]
-      split
-      · simp [sameState]
-      · rename_i hsz
-        have hsz' : size = szDouble := by simpa using hsz
-        split
-        · rename_i hc
-          have : afterCalc h = h := by
-            apply afterCalc_same
-            intro ⟨hm, hne⟩
-            rcases hs with hs | hs <;> subst hs <;> simp [kfCalcRdwr, isCalcCmd, hm, hc.1, hne, hsz'] at hk
-          simp [sameState, this]
-        · simp [sameState]
-  case k1042 =>
-    cases data with
-    | none => simp [guardEq, sameState]
-    | some m =>
-      simp only [guardEq]
-      split
-      · simp [sameState]
-      · rename_i hsz
-        have hsz' : size = szDouble * h.channels := by simpa using hsz
-        split_ifs <;> first
-          | (simp [sameState]; done)
-          | (rename_i hc1 hc2
-             have hseek : h.seekable = true := by simpa using hc1
-             have : afterCalc h = h := by
-               apply afterCalc_same
-               intro ⟨hm, hne⟩
-               rcases hs with hs | hs <;> subst hs <;> simp [kfCalcRdwr, isCalcCmd, hm, hseek, hne, hsz'] at hk
-             simp [sameState, this])
-
 
 end Sf.Command
